@@ -104,7 +104,7 @@ CLAIMED["C07"] = dict(
 
 CLAIMED["C01"] = dict(
     technique="static analysis: variant-arm evaluation of the pair-grouping transition table, call-shape and def-use checks of the grouping map, operand/field wiring of the two pair sums, dominator-ordered must-pass-through of the pipeline stages with await settlement and data-flow between stages, collective-participation rule (no Ok return that bypasses a cross-shard stage)",
-    text="Decides only the structural clauses of the statement: a match key contributes iff it occurs exactly twice (MatchEntry Single->Pair->MoreThanTwo table, into_pair only for Pair); pairs are formed in an ordered map keyed by the report's own match key; a pair's breakdown key and value are the sums of the fields of the same name of its two reports under distinct steps with the pair index as record id; hybrid_protocol runs pad, shuffle, PRF+reshard, pair aggregation, breakdown reveal, finalize in that order, each awaited, error-propagated and fed by its predecessor; every shard takes part in every cross-shard stage (one known finding: early return on empty local input). The numerical equality of the histogram with the plaintext reference over all inputs, saturation arithmetic and DP noise are NOT decided.",
+    text="Decides only the structural clauses of the statement: a match key contributes iff it occurs exactly twice (MatchEntry Single->Pair->MoreThanTwo table, into_pair only for Pair); pairs are formed in an ordered map keyed by the report's own match key; a pair's breakdown key and value are the sums of the fields of the same name of its two reports under distinct steps with the pair index as record id; hybrid_protocol runs pad, shuffle, PRF+reshard, pair aggregation, breakdown reveal, finalize in that order, each awaited, error-propagated and fed by its predecessor; the cross-shard merge of histograms is the saturating addition; every shard takes part in every cross-shard stage (one known finding: early return on empty local input). The numerical equality of the histogram with the plaintext reference over all inputs, saturation arithmetic and DP noise are NOT decided.",
     ref="§3 C01")
 
 NOT_APPLICABLE = {
